@@ -131,6 +131,7 @@ type Opts struct {
 	Workers  int           // 0 = GOMAXPROCS
 	Serial   bool          // bodies touch process-global state (SCHED): one worker
 	MaxFails int           // stop after this many failures (default 20)
+	Engine   string        // label in the evidence (default "CT"; "SCHED" for scheduler-driven bodies)
 	Procs    int           // >1: shard the tree over this many worker PROCESSES (re-exec of the test binary); needed for Serial bodies
 }
 
@@ -170,6 +171,9 @@ func Explore(body func(*X), o Opts) *Section {
 	sec := newSection(o.Name)
 	sec.DevBound = o.DevBound
 	sec.body = body
+	if o.Engine != "" {
+		sec.Engine = o.Engine
+	}
 	if o.MaxFails == 0 {
 		o.MaxFails = 20
 	}
